@@ -12,7 +12,11 @@ def obligations(tier):
     obs.append(dict(name="network-accept", harness="acc.c", entry="h_accept", unwind=8, backends=["cadical"], timeout=1800 if T else 280,
                     claim="network_accept: submission registers once; cancel leaves nothing and never calls back; the readiness callback makes one accept(2): EAGAIN/EWOULDBLOCK/ECONNABORTED/EINTR => re-register, otherwise exactly one callback with the accepted socket or -1",
                     bounds="every accept(2) return value and errno", stubs=["accept -> scripted", "events_network_register/cancel -> one-slot registry"]))
+    for na in ([0, 1, 2, 3] if not T else [0, 1, 2, 3, 4]):
+        obs.append(dict(name="network-connect-naddr%d" % na, harness="conn.c", entry="h_connect", defs=["NADDR=%d" % na], unwind=na + 4, backends=["cadical"], timeout=1800 if T else 280, flags=["--memory-leak-check"],
+                        claim="network_connect / _bind / _timeo over a list of %d addresses, every combination of immediate failure, asynchronous failure, timeout and success, cancellation at every point: addresses tried in order, at most one callback carrying the first descriptor that connected or -1 when none did, failed descriptors closed exactly once, no registration or memory left behind" % na,
+                        bounds="%d addresses" % na, stubs=["sock_connect_bind_nb, close, getsockopt -> scripted kernel", "events_network/timer/immediate register/cancel -> one-slot registries"]))
     return obs
 TRUSTED = ["CBMC 6.11 C semantics", "cadical"]
-ASSUMPTIONS = ["network_connect (address-list walk, timeouts) has no obligation: that part of C06 is NOT decided here; in network_accept a refused RE-registration after a transient error returns -1 to the event loop without a user callback (observed, not asserted either way)", "send(2) never returns 0 for a non-empty buffer (the code asserts it)"]
+ASSUMPTIONS = ["network_connect: getsockopt(SO_ERROR) is assumed to succeed and registrations made from inside callbacks are assumed accepted (their failure is a fatal error returned to the event loop without a user callback, by design); in network_accept a refused RE-registration after a transient error returns -1 to the event loop without a user callback (observed, not asserted either way)", "send(2) never returns 0 for a non-empty buffer (the code asserts it)"]
 EXPLANATION = ""
